@@ -43,3 +43,20 @@ Inductive validity := TooSmall | ValidWhenOptimistic | Valid | TooLarge.
 Inductive len_mode := Optimistic | Conservative.
 
 Inductive cmp_mode := CmpDefault | CmpNoLength.
+
+(* generator options *)
+Record options := {
+  o_mode : len_mode;
+  o_pure_int : bool;     (* integer Q-ratio computation (TLSH 4.12.1+) vs. legacy f32 *)
+  o_small : bool;        (* allow inputs below the minimum length *)
+  o_half : bool;         (* allow half-empty buckets *)
+  o_quarter : bool;      (* allow three-quarter-empty buckets *)
+}.
+
+(* insertion sort (used to define order statistics) *)
+Fixpoint insert_sorted (x : N) (l : list N) : list N :=
+  match l with
+  | [] => [x]
+  | y :: r => if x <=? y then x :: l else y :: insert_sorted x r
+  end.
+Definition isort (l : list N) : list N := fold_right insert_sorted [] l.
